@@ -10,7 +10,7 @@ Three uses of spec/SolverCtl.tla:
      spec/Trace_SolverCtl.tla re-runs the machine on the logged comparison outcomes and judges the logged
      projections (true residual, rhs unchanged, start vector semantics, repeatability, convergence).
 """
-import os, json, time
+import os, json, time, zlib
 import concurrent.futures as cf
 import vlib
 
@@ -240,6 +240,10 @@ def v_cases(tier, rng):
     sizes = [1, 2, 3, 5, 9, 17, 30, 45, 60] if thorough else [1, 2, 3, 9, 14, 30]
     reps = 6 if thorough else 1
 
+    def fixed(*key):
+        # inputs that do not depend on VERIF_SEED (the known findings of the scenario "lucky" name the failing inputs)
+        return zlib.crc32(repr(key).encode())
+
     def system(kind, n=None, delta=None):
         return dict(mkind=kind, n=n or rng.choice([x for x in sizes if x >= 9]), seed=rng.randrange(1, 1 << 30), delta=delta if delta is not None else rng.choice([0.05, 0.3, 1.0]),
                     dens=rng.choice([0.0, 0.15, 0.4]), nfilter=rng.choice([0, 0, 0, 1, 3]))
@@ -257,6 +261,7 @@ def v_cases(tier, rng):
                 for kind in (["spd", "nsym"] if rep % 2 == 0 else ["spdg", "insym"]):
                     c = dict(solver=sname, prec=prec, scen="basic", mode=rng.choice(["apply", "correct"]), cfg=limits(), omega=rng.choice([1.0, 1.0, 0.5, 1.5]))
                     c.update(system(kind))
+                    c["rawmat"] = rng.choice([False, True])
                     cases.append(c)
                 # convergence with generous limits
                 kinds = ["spd", "ispd"] if sname in SYM_ONLY else ["spd", "nsym"]
@@ -278,18 +283,48 @@ def v_cases(tier, rng):
                         for var in range(3):
                             c = dict(solver=sname, prec=prec, scen="lucky", mode=rng.choice(["apply", "correct"]), omega=1.0,
                                      cfg=dict(tol_rel=1e-8, max_iter=400) if var < 2 else dict(tol_rel=1e-8, min_iter=4, max_iter=4))
-                            if var == 2:
-                                c["scen"] = "smooth"
                             c.update(system(kind, n=rng.choice([1, 2, 3]), delta=1.0))
                             c["nfilter"] = 0
                             if var == 1 and prec == "ilu":
                                 c.update(n=8, dens=0.0)
+                            if var == 2:
+                                c["scen"] = "smooth"
+                            else:
+                                # fixed inputs (the same for every solver and seed): rounding decides which of them end in a breakdown
+                                h = fixed(kind, var, prec)
+                                c.update(seed=1 + h % 100000, mode=["apply", "correct"][(h >> 8) % 2], dens=[0.0, 0.15, 0.4][(h >> 12) % 3])
+                                if not (var == 1 and prec == "ilu"):
+                                    c["n"] = 1 + (h >> 4) % 3
+                                if sname == "Chebyshev" and kind == "spd" and var == 0:
+                                    c["n"] = 2      # symmetric 2x2 with equal diagonal: the constant vector is an eigenvector
+                            cases.append(c)
+                    # exact breakdown: 1x1 system, scaled identity, right hand side = eigenvector, all data exact in floating point:
+                    # the solvers of the unchanged tree detect the exact zero pseudo defect / residual
+                    for k, (kind, nn) in enumerate((("one", 1), ("sid", 4), ("diagev", 6))):
+                        c = dict(solver=sname, prec=prec, scen="breakdown", mode=["apply", "correct"][k % 2], omega=1.0,
+                                 cfg=dict(tol_rel=1e-8, max_iter=100))
+                        c.update(system(kind, n=nn, delta=1.0))
+                        c.update(nfilter=0, dens=0.0)
+                        cases.append(c)
+                    # constraints imposed by the filter alone: raw operator (filter_mat NOT applied) + unit filter on a few dofs,
+                    # entered through correct() with a start vector that satisfies the constraints (and apply() as the other call)
+                    for kind in kinds:
+                        if kind == "near1":
+                            continue
+                        c = dict(solver=sname, prec=prec, scen="converge", mode="correct", omega=1.0, rawmat=True,
+                                 cfg=dict(tol_rel=rng.choice([1e-4, 1e-8]), max_iter=400, skip=rng.choice([True, False])))
+                        c.update(system(kind, delta=rng.choice([0.3, 1.0])))
+                        c["nfilter"] = rng.choice([2, 3])
+                        if prec == "ilu":
+                            c["dens"] = rng.choice([0.15, 0.4])
+                        if sname != "Chebyshev":
                             cases.append(c)
             # exact start vector / zero right hand side on an integer system
             for kind in (["ispd"] if sname in SYM_ONLY else ["ispd", "insym"]):
                 c = dict(solver=sname, prec=prec, scen="exact", mode="correct", omega=1.0, cfg=dict(tol_rel=1e-6, max_iter=100))
                 c.update(system(kind, n=rng.choice([1, 2, 4, 7, 12])))
                 c["nfilter"] = rng.choice([0, 0, 1])
+                c["rawmat"] = rng.choice([False, True])
                 cases.append(c)
             # preconditioner failure at the k-th application must be reported as aborted
             if prec != "none":
@@ -384,7 +419,9 @@ def run_v(chk):
             clause_hist[clause] = clause_hist.get(clause, 0) + 1
             sig = {"part": "V", "solver": T["solver"], "prec": T["prec"], "scen": T["scen"], "tag": T["tag"], "clause": clause,
                    "init_stop": init_stop, "after_reinit": T["tag"] in ("reinit", "other"), "nan_at_1": nan_at_1,
-                   "prev_nan_at_1": prev_nan_at_1}
+                   "prev_nan_at_1": prev_nan_at_1, "raw": bool(T.get("raw")),
+                   "nan_abort": T["ret"] == "aborted" and not T["precFail"] and bool(d.get("defs")) and d["defs"][-1] == "nan",
+                   "input": "%s/n%d/s%d" % (T["mkind"], T["n"], cases[owner[k]]["seed"]) if T["scen"] == "lucky" else "-"}
             desc = "%s/%s %s/%s n=%d %s: clause %s violated (returned %s after %d iterations; statuses %s; defects %s)" % (
                 T["solver"], T["prec"], T["scen"], T["tag"], T["n"], T["mode"], clause, T["ret"], T["retNi"],
                 [e["st"] for e in T["ev"]][-4:], [("%.3g" % x if isinstance(x, (int, float)) else x) for x in d.get("defs", [])][-4:])
@@ -418,7 +455,9 @@ def run(chk):
                 "solves on one object, each call compared with the predicted (status, num_iter, def_init, def_cur, def_prev, "
                 "num_stag_iter, is_converged, is_diverged); V: seeded cases = solver x preconditioner x system kind (SPD / nonsymmetric "
                 "diagonally dominant / integer / near-identity, n <= 60, optional unit filter) x scenario (random limits, convergence, "
-                "Krylov space exhaustion, smoother configuration, exact start / zero rhs, injected preconditioner failure), each case = "
+                "Krylov space exhaustion on fixed inputs, exact breakdown (1x1 / scaled identity / eigenvector rhs with exact data), raw "
+                "operator + unit filter (constraints imposed by filter_def/filter_cor alone, through correct() and apply()), smoother "
+                "configuration, exact start / zero rhs, injected preconditioner failure), each case = "
                 "3-4 solves on one object (again, done/init, other entry point); non-trivial = at least one iteration step; distinct = "
                 "distinct behaviour / distinct (solver, preconditioner, scenario, system, outcome)")
     chk.assumptions = ["contradictory limits (min_iter > max_iter) have no declarative meaning; the code lets min_iter win "
